@@ -59,6 +59,7 @@ def required(tier):
         "empty.leading": 500,
         "empty.middle": 500,
         "empty.trailing": 500,
+        "trees.lr_with_start_position": 300,
     }
 
 
@@ -316,6 +317,27 @@ def check_input(ctx, g, glr, lr, case, inp, skip, extra=(None, None)):
         ctx.case(key + ("GLR",), has_layout or had_empty, sample={"grammar": case["grammar"], "input": inp, "parser": "GLR", "trees": o.len})
     elif o.kind != "forest":
         ctx.count("glr_rejected_or_failed")
+    # --- parse(input, position=k): positions stay absolute ---
+    if lr is not None and hash(inp) % 5 == 0:
+        pre = "#?" + inp[:1]
+        try:
+            with pgx.watchdog(30):
+                k0, v0 = pgx.outcome(lr.parse, pre + inp, len(pre))
+        except (pgx.CaseTimeout, pgx.BudgetExceeded):
+            k0 = None
+        if k0 == "ret":
+            ctx.count("trees.lr_with_start_position")
+            full = pre + inp
+            errs, st = check_tree(v0, full, is_layout)
+            errs = [e for e in errs if e[0] != "not-lossless"]
+            leaves = st["leaves"]
+            if leaves and leaves[0].start_position < len(pre):
+                errs.append(("leaf-before-start-position", "first leaf at %d, parse started at %d" % (leaves[0].start_position, len(pre))))
+            rec = "".join((l.layout_content or "") + l.value for l in leaves)
+            if not (full[len(pre):].startswith(rec) and is_layout(full[len(pre) + len(rec):])):
+                errs.append(("not-lossless", "from position %d the leaves give %r, input is %r" % (len(pre), rec, full[len(pre):])))
+            for sig, detail in errs:
+                ctx.violation("lr:" + sig, dict(case, parser="LR", start_position=len(pre), input=full), "parse(position=%d): %s" % (len(pre), detail))
     # --- LR ---
     if lr is not None:
         try:
